@@ -1,7 +1,8 @@
 (* C04 -- implicit hydrogen counts and valence errors follow the element valence rules.
-   Statements only; definitions in Model.Valence (mirror of the Python code) and Proofs.ValenceProofs (specification
-   vocabulary: no_aromatic, non8, env_of, mol_union, formula_count, octet_h, ...).  The element tables are regenerated
-   from chython/periodictable/group*.py on every run (Gen.Elements). *)
+   Statements only; definitions in Model.Valence and Model.ValenceArom (mirror of the Python code; ValenceArom: closed form
+   of the aromatic branch, union / substructure / split) and Proofs.ValenceProofs / Proofs.ValenceExt (specification
+   vocabulary: no_aromatic, non8, env_of, mol_union, formula_count, octet_h, atoms_of, in_sel, overlap, ...).  The element
+   tables are regenerated from chython/periodictable/group*.py on every run (Gen.Elements). *)
 From Coq Require Import ZArith List String Bool Permutation.
 From Model Require Import PyBase Graph PeriodicTable Valence ValenceArom.
 From Gen Require Import Elements.
